@@ -248,10 +248,25 @@ def through_dict_form(inp, O, S, onode, snode):
     return inp2, onode2, snode2
 
 
-def solve(algo, family, pres, twice=False, after_other=False, inplace=False, via_dict=False, after_algos=False):
+def default_cost_input(inp, family):
+    """the same input built WITHOUT a cost argument (the constructor supplies the default unit costs)"""
+    if family == "plain":
+        return type(inp)(inp.object_tree, inp.species_lca, dict(inp.leaf_object_species))
+    return type(inp)(inp.object_tree, inp.species_lca, dict(inp.leaf_object_species), leaf_syntenies=dict(inp.leaf_syntenies))
+
+
+def solve(algo, family, pres, twice=False, after_other=False, inplace=False, via_dict=False, after_algos=False,
+          default_history=False):
     """-> (min cost or None, list of keys, error)"""
     try:
         inp, O, S, olab, slab, onode, snode = pres.build(family)
+        if default_history:
+            # (only at the default vector) a sibling input, also built without a cost argument, has its transfer and loss
+            # prices raised in place before this one is solved: inputs built with default costs must not share them
+            sib = default_cost_input(inp, family)
+            inp = default_cost_input(inp, family)
+            for k_ in list(sib.costs):
+                sib.costs[k_] = sib.costs[k_] + 3
         if via_dict:
             inp, onode, snode = through_dict_form(inp, O, S, onode, snode)
         fn = reconcile_thl if algo == "thl" else L.SOLVERS[algo][0]
@@ -314,6 +329,8 @@ def transformations(onest, snest, costs, family):
     out.append(("outgroup_left", "outgroup", {"snest": ("X", snest)}))
     out.append(("through_dict_form", "same", {"via_dict": True}))
     out.append(("after_other_algorithms", "same", {"after_algos": True}))
+    if tuple(costs) == (0, 1, 1, 1, 1):
+        out.append(("default_costs_after_sibling_edit", "same", {"default_history": True}))
     out.append(("repeat_same_object", "twice", {}))
     out.append(("repeat_fresh", "same", {}))
     # another input solved first on the same tree objects and the same LowestCommonAncestor structure
@@ -356,7 +373,8 @@ def check_input(algo, family, osh, ssh, leafmap, leafsyn, costs, only=None, kind
         k = kw.pop("k", None)
         p = Pres(kw.get("onest", onest), kw.get("snest", snest), leafmap, leafsyn, kw.get("costs", costs),
                  kw.get("naming", "default"), kw.get("fam", "id"), kw.get("order", "pre"))
-        c1, k1, err = solve(algo, family, p, twice=(kind == "twice"), after_other=(kind == "after"), inplace=("scale" if kind == "scale_inplace" else kind == "inplace"), via_dict=kw.get("via_dict", False), after_algos=kw.get("after_algos", False))
+        c1, k1, err = solve(algo, family, p, twice=(kind == "twice"), after_other=(kind == "after"), inplace=("scale" if kind == "scale_inplace" else kind == "inplace"), via_dict=kw.get("via_dict", False), after_algos=kw.get("after_algos", False),
+                             default_history=kw.get("default_history", False))
         runs += 1
         if err:
             bad.append((name, f"{name}: {err}"))
